@@ -78,8 +78,26 @@ def gen_conflict_window(rng, sessions, sel, sizes, next_id):
         by_mb.setdefault(sel[s], []).append(s)
     other = lambda m: "b" if m == "inbox" else "inbox"  # noqa
     same = [ss for ss in by_mb.values() if len(ss) >= 2]
-    kind = rng.choice(["copy_store", "fetch_store", "move_store", "opposite", "expunge_fetch", "copy_expunge"])
+    kind = rng.choice(["copy_store", "fetch_store", "move_store", "opposite", "expunge_fetch", "copy_expunge"] +
+                      (["copy_late"] * 3 if len(sessions) >= 4 else []))
     cmds = []
+    if kind == "copy_late" and same:
+        # a COPY that has read its source and waits for a busy destination, while the source's
+        # newest message is expunged and its file number is taken by a new message (timed window:
+        # "delay" = start offset, "slow" = how long the APPEND holds the destination)
+        ss = rng.choice(same)
+        a, c = ss[0], ss[1]
+        m = sel[a]
+        b, dd = [s for s in sessions if s not in (a, c)][:2]
+        if sizes[m] >= 1:
+            act = rng.choice(["Copy", "Copy", "Move"])
+            cmds = [dict(base(b, "Append", mbox=other(m), set=[], msgid=next_id[0], flags=[]), delay=0, slow=3.0),
+                    dict(base(a, act, mbox=other(m), uid=rng.random() < 0.5), delay=0.2),
+                    dict(base(c, "Expunge", set=[]), delay=0.5,
+                         pre=[(c, f"STORE {sizes[m]} +FLAGS.SILENT (\\Deleted)")]),
+                    dict(base(dd, "Append", mbox=m, set=[], msgid=next_id[0] + 1, flags=[]), delay=1.0)]
+            next_id[0] += 2
+            return cmds
     if kind == "opposite" and len(by_mb) == 2:
         (m1, s1), (m2, s2) = [(m, ss[0]) for m, ss in by_mb.items()]
         act = rng.choice(["Copy", "Move"])
@@ -177,12 +195,25 @@ async def run_windows(d: MailDriver, rng, sessions, nwin, stats):
             cmds = gen_window_cmds(rng, sessions, sel, sizes, next_id)
         if not cmds:
             continue
+        pre = [x for c in cmds for x in c.get("pre", [])]
+        if pre:
+            for s_, text in pre:
+                await w.cmd(s_, text)
+            for s in sessions:
+                await w.cmd(s, "NOOP")
         init = lin_state(d)
         d.admits = []
         tags = [w.new_tag() for _ in cmds]
-        results = await asyncio.gather(*[
-            w.cmd(c["sess"], render(c), tag=t, kind=c["act"].upper(), uid=c["uid"], settle=0)
-            for c, t in zip(cmds, tags)])
+
+        async def issue(c, t):
+            if c.get("delay"):
+                await asyncio.sleep(c["delay"])
+            if c.get("slow"):
+                d.slow[c["mbox"]] = c["slow"]
+            return await w.cmd(c["sess"], render(c), tag=t, kind=c["act"].upper(), uid=c["uid"], settle=0)
+
+        results = await asyncio.gather(*[issue(c, t) for c, t in zip(cmds, tags)])
+        d.slow.clear()
         await w.advance(0.05)
         final = lin_state(d)
         rec = {}
@@ -214,7 +245,11 @@ async def run_windows(d: MailDriver, rng, sessions, nwin, stats):
             c2.update(status=r.status if r.status in ("OK", "NO", "BAD") else "NONE", fetched=fetched,
                       code=code, vt=int(math.ceil(max(r.vt, 0))), text=(r.tagged or {}).get("text", "")[:70])
             rec[f"c{i + 1}"] = c2
-        windows.append({"init": init, "cmds": rec, "final": final,
+        for c2 in rec.values():
+            c2.pop("pre", None)
+            c2.pop("delay", None)
+            c2.pop("slow", None)
+        windows.append({"init": init, "cmds": rec, "final": final, "nsess": len(sessions),
                         "admits": [a for a in d.admits if a["tag"] in tags]})
         # track what the sessions have selected (BYE/close would show in ss)
     return windows
@@ -248,9 +283,22 @@ def execute(seed, nwin=6, sessions=("A", "B", "C"), p_fifo=0.6):
                              "uids": list(mbox.uids),
                              "applied": sorted(cmd.msg_set_as_set) if cmd.msg_set_as_set else []})
         d._on_admit = on_admit
+        # a slow disk: the APPEND named in d.slow holds its mailbox for that long (virtual time)
+        d.slow = {}
+        import asimap.mbox as _mb
+        orig_append = _mb.Mailbox.append
+
+        async def slow_append(self, *a, **k):
+            t = d.slow.pop(self.name, None)
+            if t:
+                await asyncio.sleep(t)
+            return await orig_append(self, *a, **k)
+        _mb.Mailbox.append = slow_append
+        d._orig_append = orig_append
         try:
             return await run_windows(d, rng, list(sessions), nwin, stats)
         finally:
+            _mb.Mailbox.append = d._orig_append
             d.uninstall()
             try:
                 await w.stop()
